@@ -66,8 +66,26 @@ def corpus():
     ]
 
 
+COMMITS = ' ; '.join(['commitnth 1 0 0'] * 14)
+
+
+def uneven():
+    """(name, history): scale-outs / scale-ins where 16384 is not divisible by the new master count, so that the planners cut
+    remainder pieces (one-slot ranges such as 16383-16383); each one mid-migration and after every commit"""
+    out = []
+    def both(name, n, ops):
+        out.append((name + '-mid', base(n) + ' ; ' + ops))
+        out.append((name + '-committed', base(n) + ' ; ' + ops + ' ; ' + COMMITS))
+    both('uneven-4-to-12', 12, 'addcluster 1 4 1 ? ; addnodes 1 8 ? ; migrate 1')
+    both('uneven-4-to-20', 20, 'addcluster 1 4 1 ? ; addnodes 1 16 ? ; migrate 1')
+    both('uneven-8-to-12', 12, 'addcluster 1 8 1 ? ; addnodes 1 4 ? ; migrate 1')
+    both('uneven-12-to-8', 12, 'addcluster 1 12 1 ? ; scaledown 1 8')
+    both('uneven-4-to-12-to-8', 12, 'addcluster 1 4 1 ? ; addnodes 1 8 ? ; migrate 1 ; ' + COMMITS + ' ; scaledown 1 8')
+    return out
+
+
 def gen_history(rng):
-    n = rng.choice([8, 10, 12, 14, 16])
+    n = rng.choice([8, 10, 12, 14, 16, 20, 24])
     hosts = rng.choice([2, 3, 4])
     ops = [base(n, hosts)]
     k0 = rng.choice([4, 4, 8, 8, 12])
@@ -81,7 +99,7 @@ def gen_history(rng):
         ops.append('balance 1')
     kind = rng.random()
     if kind < 0.55:
-        ops.append('addnodes 1 %d ?' % rng.choice([4, 4, 8]))
+        ops.append('addnodes 1 %d ?' % rng.choice([4, 4, 8, 8, 12, 16]))
         ops.append('migrate 1')
     elif kind < 0.85 and k0 >= 8:
         ops.append('scaledown 1 %d' % rng.choice([4, k0 - 4]))
@@ -89,8 +107,12 @@ def gen_history(rng):
         ops.append('autochange 1 %d ?' % rng.choice([4, 8, 12]))
         ops.append('autoscaleout 1 %d' % rng.choice([8, 12, 16]))
     failovers(rng.choice([0, 0, 0, 1, 2]))
-    for _ in range(rng.choice([0, 0, 1, 1, 2])):
-        ops.append('commitnth 1 %d %d' % (rng.randint(0, 5), rng.random() < 0.5))
+    ncommit = rng.choice([0, 0, 1, 1, 2, 14])
+    for _ in range(ncommit):
+        ops.append('commitnth 1 %d %d' % (rng.randint(0, 5) if ncommit < 14 else 0, rng.random() < 0.5 and ncommit < 14))
+    if ncommit == 14 and rng.random() < 0.5:
+        # a second, uneven resize on top of the committed one
+        ops.append(rng.choice(['scaledown 1 4', 'scaledown 1 8', 'addnodes 1 4 ? ; migrate 1', 'addnodes 1 8 ? ; migrate 1']))
     if rng.random() < 0.15:
         failovers(1)
     return ' ; '.join(ops)
@@ -111,13 +133,22 @@ def gen_cases(chk):
                 cases.append((enc, lim, pin, st))
         cases.append(('comp', 0, 'sc', cor[5]))
         cases.append(('plain', 0, 'pc', cor[5]))
+        un = uneven()
+        for j, pin in enumerate(PINS):      # 4 -> 12 mid-migration: every phase pair
+            cases.append(('plain' if j % 2 else 'comp', 0, pin, un[0]))
+        for i, st in enumerate(un[1:]):
+            if st[0].endswith('-committed'):
+                cases.append(('plain' if i % 2 else 'comp', 0, 'sc', st))
+            else:
+                for j, pin in enumerate([PINS[(2 * i + 1) % 8], PINS[(2 * i + 4) % 8]]):
+                    cases.append(('comp' if (i + j) % 2 else 'plain', 1 if (i + j) % 4 == 3 else 0, pin, st))
         for k in range(3):
             h = ('random-%d' % k, gen_history(chk.rng))
             for pin in chk.rng.sample(PINS, 2):
                 cases.append((chk.rng.choice(['plain', 'comp']), chk.rng.choice([0, 0, 1]), pin, h))
     else:
-        for st in cor:
-            for pin in PINS:
+        for st in cor + uneven():
+            for pin in (PINS if not st[0].endswith('-committed') else ['sc', 'pc']):
                 for enc in ('plain', 'comp'):
                     cases.append((enc, 0, pin, st))
             for pin in ('pc', 'psd', 'sc'):
@@ -191,6 +222,8 @@ def analyse(chk, cases, lines, parsed, mout):
     stats = {'cases': len(cases), 'pins': {}, 'encodings': {}, 'limits': {}, 'states': {}, 'proxies_per_state': {}, 'migrations_per_case': {},
              'pairs_exercised_on_real_tasks': {}, 'chases_on_real_proxies': 0, 'max_redirections_stable': 0, 'max_redirections_migrating': 0,
              'chases_ended_parked': 0, 'parked_behind_other_migrations_barrier': 0, 'model_chases': 0,
+             'one_slot_ranges_in_states': 0, 'ranges_shorter_than_4_slots_in_states': 0, 'cases_with_a_one_slot_range': 0,
+             'cases_with_a_one_slot_range_mid_migration': 0,
              'disagreements': 0, 'monitor_failures': 0}
     first_dis = None
     for c, line, (p, raw), m in zip(cases, lines, parsed, mout):
@@ -214,6 +247,11 @@ def analyse(chk, cases, lines, parsed, mout):
         stats['max_redirections_migrating'] = max(stats['max_redirections_migrating'], int(mtoks.get('maxredir_migrating', 0)))
         stats['chases_ended_parked'] += int(mtoks.get('ended_queued', 0))
         stats['parked_behind_other_migrations_barrier'] += int(mtoks.get('queued_node_barrier', 0))
+        stats['one_slot_ranges_in_states'] += int(mtoks.get('one_slot_ranges', 0))
+        stats['ranges_shorter_than_4_slots_in_states'] += int(mtoks.get('short_ranges', 0))
+        if int(mtoks.get('one_slot_ranges', 0)) > 0:
+            stats['cases_with_a_one_slot_range'] += 1
+            if nmig > 0: stats['cases_with_a_one_slot_range_mid_migration'] += 1
         chk.count(line, nmig > 0)
         bad = None
         if not mon.startswith('ok '):
@@ -267,6 +305,9 @@ def run(chk):
     parsed, mout = run_pipeline(chk, lines, jobs, retried)
     stats = analyse(chk, cases, lines, parsed, mout)
     stats['retried_cases'] = retried
+    if stats['cases_with_a_one_slot_range_mid_migration'] == 0 or stats['cases_with_a_one_slot_range'] == stats['cases_with_a_one_slot_range_mid_migration']:
+        chk.violation({'kind': 'coverage', 'detail': 'the generated broker states contain no one-slot range mid-migration and/or after the commits '
+                       '(uneven resizes are part of the corpus): %r' % {k: stats[k] for k in stats if 'one_slot' in k}}, no_input=True)
     stats['pairs_only_at_model_level'] = [v for v in PAIR.values() if v not in stats['pairs_exercised_on_real_tasks']]
     stats['phase_change_during_a_chase'] = 'not exercised on the real code (model level only)'
     chk.sub('distribution', **stats)
